@@ -102,18 +102,24 @@ def check(ctx: Ctx) -> str:
     s = ast.unparse(sp.node)
     rs = [r for r in astq.raises(sp.node) if astq.raise_type(r) == "TemplateNotFound"]
     ctx.need(len(rs) >= 1, "split_template_path no longer raises TemplateNotFound")
-    gtexts = " ".join(g for g, pol in astq.guard_texts(sp.node, rs[0]) if pol)
-    for cond, what in (("os.sep in piece", "os.sep"), ("os.path.altsep in piece", "os.path.altsep"), ("piece == os.path.pardir", "os.path.pardir")):
-        ctx.check(cond in gtexts, f"reject:{what}", "loaders:split_template_path", f"rejects {what}",
-                  f"pieces containing {what} are no longer rejected with TemplateNotFound", sp.loc(rs[0]), detail={"guard": gtexts})
-    # the three rejections are alternatives (or), not a conjunction
+    # the loop variable's name is irrelevant: take it from the loop over template.split('/')
+    seg_loops = [l for l in ast.walk(sp.node) if isinstance(l, ast.For) and ast.unparse(l.iter) == "template.split('/')" and isinstance(l.target, ast.Name)]
+    ctx.check(len(seg_loops) == 1, "split:slash", "loaders:split_template_path", "split on '/'", "template names must be split on '/'", sp.loc())
+    v = seg_loops[0].target.id if seg_loops else "piece"  # type: ignore[attr-defined]
     tests = [n for n in ast.walk(sp.node) if isinstance(n, ast.If) and rs[0] in list(ast.walk(n))]
     top = tests[0].test if tests else None
-    ctx.check(isinstance(top, ast.BoolOp) and isinstance(top.op, ast.Or) and len(top.values) == 3, "reject:or", "loaders:split_template_path", "rejections are alternatives",
-              "the separator / pardir tests must be combined with `or`", sp.loc())
-    ctx.check("template.split('/')" in s, "split:slash", "loaders:split_template_path", "split on '/'", "template names must be split on '/'", sp.loc())
+    alts = [ast.unparse(x) for x in top.values] if isinstance(top, ast.BoolOp) and isinstance(top.op, ast.Or) else ([ast.unparse(top)] if top is not None else [])
+    gtexts = " | ".join(alts)
+    for cond, what in ((f"os.sep in {v}", "os.sep"), (f"os.path.altsep in {v}", "os.path.altsep"), (f"{v} == os.path.pardir", "os.path.pardir")):
+        ctx.check(any(cond in a_ for a_ in alts), f"reject:{what}", "loaders:split_template_path", f"rejects {what}",
+                  f"pieces containing {what} are no longer rejected with TemplateNotFound", sp.loc(rs[0]), detail={"guard": gtexts})
+    # the three rejections are alternatives (or), not a conjunction, and nothing else guards the raise
+    only = [a_ for a_ in astq.guard_atoms(sp.node, rs[0])]
+    ctx.check(len(alts) == 3 and len(only) == 1, "reject:or", "loaders:split_template_path", "rejections are alternatives",
+              f"the separator / pardir tests must be combined with `or` and be the only condition of the rejection (found {only})", sp.loc())
     app = [c for c in astq.calls(sp.node) if astq.callee(c) == "pieces.append"]
-    ok = bool(app) and any(("piece and piece != '.'" in g and pol) for g, pol in astq.guard_texts(sp.node, app[0]))
+    ga = astq.guard_atoms(sp.node, app[0]) if app else []
+    ok = bool(app) and (v, True) in ga and (f"{v} == '.'", False) in ga
     ctx.check(ok, "drop:empty-dot", "loaders:split_template_path", "drops '' and '.'", "empty and '.' segments must be dropped", sp.loc())
     # check-then-use: what is appended (and later joined into a file name) is the very value
     # that passed the tests - a transformation after the check (normalisation, unquoting,
